@@ -110,7 +110,9 @@ def gen_world(rnd, n_rc=(3, 6), n_hint=(1, 2), n_fc=(1, 3), p_unknown_run=0.25, 
     for pkey in package_kinds:
         ast, _ = gen_valid(rnd, rnd.randint(0, 2), rc, hints, fcs, want=("rc",))
         packages[pkey] = render(ast, rnd, "upper")
-    cer = make_cer("r0", rc=assignment, fc={k: rnd.random() < 0.5 for k in fcs}, hints=hints, packages=packages)
+    cer = make_cer("r0", rc=assignment, fc={k: rnd.random() < 0.5 for k in fcs}, hints=hints, packages=packages,
+                   time_conditions=True)
+    world["rc_keys"] = sorted(set(rc) | {"492", "493"}, key=int)
     return world, cer, (rc, hints, fcs, package_kinds)
 
 
@@ -122,7 +124,8 @@ def gen_expression_pool(rnd, universe, size=(3, 8), depth=(0, 2), max_parts=3, p
     rc, hints, fcs, package_kinds = universe
     pool = []
     for _ in range(rnd.randint(*size)):
-        parts = gen_ahb_parts(rnd, rnd.randint(*depth), rc, hints, fcs, package_kinds, max_parts=max_parts)
+        parts = gen_ahb_parts(rnd, rnd.randint(*depth), rc, hints, fcs, package_kinds, max_parts=max_parts,
+                              allow_ub=True)
         style = rnd.choice(["plain", "symbol", "upper"])
         text = render_ahb(parts, rnd, style)
         pool.append(text)
